@@ -119,6 +119,31 @@ fn addr<T>(r: &T) -> usize {
     r as *const T as usize
 }
 
+const ITER_ALIVE_PANIC: &str = "panic_with_iterator_alive";
+
+/// Ends an iterator script: drop, forget, or let the handle be dropped by an unwinding panic.
+fn finish<I>(it: I, end: EndMode) {
+    match end {
+        EndMode::Drop => drop(it),
+        EndMode::Forget => std::mem::forget(it),
+        EndMode::PanicDrop => {
+            let _alive = it;
+            std::panic::panic_any(Injected(ITER_ALIVE_PANIC));
+        }
+    }
+}
+
+/// Runs `f`; an unwinding "iterator alive" panic raised by `finish` is absorbed here (everything
+/// else propagates).
+fn absorb_iter_panic(f: impl FnOnce()) {
+    if let Err(e) = std::panic::catch_unwind(std::panic::AssertUnwindSafe(f)) {
+        match e.downcast_ref::<Injected>() {
+            Some(i) if i.0 == ITER_ALIVE_PANIC => {}
+            _ => std::panic::resume_unwind(e),
+        }
+    }
+}
+
 fn eref(o: Option<(&SimKey, &SimVal)>) -> Outcome {
     Outcome::EntryRef(o.map(|(k, v)| (k.tok, v.tok, addr(k), addr(v))))
 }
@@ -379,6 +404,13 @@ pub fn exec(w: &mut World, op: &Op) -> Outcome {
         }
         OpKind::IterScript { kind, script, end } => {
             let mut items = Vec::with_capacity(script.len());
+            let items_ref = &mut items;
+            let held_k_ref = &mut held_k;
+            let held_v_ref = &mut held_v;
+            absorb_iter_panic(|| {
+            let items = items_ref;
+            let held_k = held_k_ref;
+            let held_v = held_v_ref;
             match kind {
                 IterKind::Iter => {
                     let mut it = cache.iter();
@@ -389,9 +421,7 @@ pub fn exec(w: &mut World, op: &Op) -> Outcome {
                             Some((k, v)) => IterItem::Pair { ktok: k.tok, vtok: v.tok, kaddr: addr(k), vaddr: addr(v) },
                         });
                     }
-                    if *end == EndMode::Forget {
-                        std::mem::forget(it);
-                    }
+                    finish(it, *end);
                 }
                 IterKind::Keys => {
                     let mut it = cache.keys();
@@ -402,9 +432,7 @@ pub fn exec(w: &mut World, op: &Op) -> Outcome {
                             Some(k) => IterItem::Key { ktok: k.tok, kaddr: addr(k) },
                         });
                     }
-                    if *end == EndMode::Forget {
-                        std::mem::forget(it);
-                    }
+                    finish(it, *end);
                 }
                 IterKind::Values => {
                     let mut it = cache.values();
@@ -415,9 +443,7 @@ pub fn exec(w: &mut World, op: &Op) -> Outcome {
                             Some(v) => IterItem::Val { vtok: v.tok, vaddr: addr(v) },
                         });
                     }
-                    if *end == EndMode::Forget {
-                        std::mem::forget(it);
-                    }
+                    finish(it, *end);
                 }
                 IterKind::Drain => {
                     let mut it = cache.drain();
@@ -433,13 +459,11 @@ pub fn exec(w: &mut World, op: &Op) -> Outcome {
                             }
                         });
                     }
-                    match end {
-                        EndMode::Drop => drop(it),
-                        EndMode::Forget => std::mem::forget(it),
-                    }
+                    finish(it, *end);
                 }
                 _ => unreachable!(),
             }
+            });
             Outcome::Iter(items)
         }
         OpKind::CloneTo | OpKind::DropCache => unreachable!(),
@@ -452,6 +476,9 @@ pub fn exec(w: &mut World, op: &Op) -> Outcome {
 
 fn run_owning(w: &mut World, c: Cache, kind: IterKind, script: &[bool], end: EndMode) -> Outcome {
     let mut items = Vec::with_capacity(script.len());
+    let items_ref = &mut items;
+    absorb_iter_panic(|| {
+    let items = items_ref;
     match kind {
         IterKind::IntoIter => {
             let mut it = c.into_iter();
@@ -467,10 +494,7 @@ fn run_owning(w: &mut World, c: Cache, kind: IterKind, script: &[bool], end: End
                     }
                 });
             }
-            match end {
-                EndMode::Drop => drop(it),
-                EndMode::Forget => std::mem::forget(it),
-            }
+            finish(it, end);
         }
         IterKind::IntoKeys => {
             let mut it = c.into_keys();
@@ -485,10 +509,7 @@ fn run_owning(w: &mut World, c: Cache, kind: IterKind, script: &[bool], end: End
                     }
                 });
             }
-            match end {
-                EndMode::Drop => drop(it),
-                EndMode::Forget => std::mem::forget(it),
-            }
+            finish(it, end);
         }
         IterKind::IntoValues => {
             let mut it = c.into_values();
@@ -503,12 +524,10 @@ fn run_owning(w: &mut World, c: Cache, kind: IterKind, script: &[bool], end: End
                     }
                 });
             }
-            match end {
-                EndMode::Drop => drop(it),
-                EndMode::Forget => std::mem::forget(it),
-            }
+            finish(it, end);
         }
         _ => unreachable!(),
     }
+    });
     Outcome::Iter(items)
 }
